@@ -15,10 +15,13 @@ def run_jit(chk, limit=None):
     _tr, ks = pyk2coq.all_kernels(common.REPO)
     kernels = []
     for dotted, name, res in ks:
-        if res[0] != "ok":
-            continue
         m = _tr.mod(dotted)
         fn = m.funcs[name]
+        if res[0] != "ok":
+            # a kernel the translator refuses (e.g. one that has become self-recursive) is still compared in both modes, with the longest argument vector
+            if len(fn.args.args) <= 2:
+                kernels.append(dict(module=dotted, name=name, params=len(fn.args.args), nargs=len(ARGS), untranslated=True))
+            continue
         kernels.append(dict(module=dotted, name=name, params=len(fn.args.args), nargs=max(pyk2coq.arity(res[1]), 1)))
     if limit:
         chk.rng.shuffle(kernels)
